@@ -235,9 +235,16 @@ NG == 30
 ASSUME NG = Len(GNodes)
 GFirst == SchemaF(<< <<"a", With(IntF, [hasmin |-> TRUE, min |-> 1, hasmax |-> TRUE, max |-> 9, default |-> IntV(5)])>>,
                      <<"s", With(StringF, [tcase |-> "lower", stripm |-> "ws", default |-> s(<<"a", "b">>)])>> >>)
-\* index 1 is GFirst; 2 .. NG*NG+1 the grid (GFirst's own grid position is explored twice)
-MCFamilyN2 == NG * NG + 1
+\* hand-made members: ONE schema object used for a sub-configuration and for the items of a
+\* sibling list (the harness builds descriptors with the same `shared` tag as one Python object)
+GSharedS == [shared |-> "item"] @@ GItemS
+GExtras == << SchemaF(<< <<"a", GSharedS>>, <<"s", With(ListF(GSharedS), [default |-> ListV(<<>>)])>> >>),
+             SchemaF(<< <<"a", With(ListF(GSharedS), [default |-> ListV(<<>>)])>>, <<"s", GSharedS>> >>) >>
+\* index 1 is GFirst; 2 .. NG*NG+1 the grid (GFirst's own grid position is explored twice); then GExtras
+MCFamilyN2 == NG * NG + 1 + 2
+ASSUME Len(GExtras) = 2
 MCFamilyAt2(i) == IF i = 1 THEN GFirst
+                  ELSE IF i > NG * NG + 1 THEN GExtras[i - (NG * NG + 1)]
                   ELSE SchemaF(<< <<"a", GNodes[((i - 2) \div NG) + 1]>>, <<"s", GNodes[((i - 2) % NG) + 1]>> >>)
 \* three keys: a sub-schema, a leaf, anything
 NS3 == 7   \* sub-schema shapes
@@ -266,7 +273,8 @@ NextThenReset ==
     \/ steps = 0 /\ Next
     \/ steps >= 1 /\ \E n \in Names, pk \in DOMAIN SetCandsNow : Tick /\ Reset(n, pk)
 \* plus the "diagonal" (both keys of the same node shape), so that every shape is replayed by every run
-IsDiagSid(i) == i >= 2 /\ i <= MCFamilyN2 /\ ((i - 2) \div NG) = ((i - 2) % NG)
+IsDiagSid(i) == \/ i >= 2 /\ i <= NG * NG + 1 /\ ((i - 2) \div NG) = ((i - 2) % NG)
+                \/ i > NG * NG + 1 /\ i <= MCFamilyN2          \* (and the hand-made members)
 \* (FAM_PARTS / FAM_PART: the sample is exported by several TLC processes side by side)
 SidOk(i) == /\ (i % atoi(IOEnv.FAM_STRIDE)) = atoi(IOEnv.FAM_PHASE) \/ IsDiagSid(i)
             /\ (i % atoi(IOEnv.FAM_PARTS)) = atoi(IOEnv.FAM_PART)
